@@ -358,3 +358,79 @@ def include_settings(ctx):
     else:
         ctx.inconclusive.append("vacuity: include never executed")
     ctx.sample({"paths": E.paths})
+
+
+# ---------------------------------------------------------------------------------------
+# O5: composition with the parser: a fixed-form procedure and its free-form transcription are documented alike (entities, calls)
+# ---------------------------------------------------------------------------------------
+# (fixed-form lines, free-form lines) of one executable fragment each
+FF_PAIRS = [
+    (["  100    format (1x, i5, 3(f8.3, 1x))"], ["100 format (1x, i5, 3(f8.3, 1x))"]),
+    (["  110 format(2(a, i3))"], ["110 format(2(a, i3))"]),
+    (["      do 20 i = 1, 3", "         x = bar(y)", "   20 continue"], ["do 20 i = 1, 3", "x = bar(y)", "20 continue"]),
+    (["      if (x .gt. 0) then", "  120    format (2(i3))", "      endif"], ["if (x .gt. 0) then", "120 format (2(i3))", "endif"]),
+    (["      write (*, 130) x", "  130 format (3(i5))", "      call foo(x)"], ["write (*, 130) x", "130 format (3(i5))", "call foo(x)"]),
+    (["      goto (10, 20) i", "   10 x = 1", "   20 call noargs"], ["goto (10, 20) i", "10 x = 1", "20 call noargs"]),
+]
+
+
+def _ff_observe(p):
+    from fv.props import c08
+    c = [x for x in p.procedures if str(x.name).lower() == "caller"][0]
+    return sorted(c08._callnames(p)), sorted(str(v.name).lower() for v in c.variables)
+
+
+def replay_fixed_free(w):
+    import ford.sourceform as sf
+    from fv.props import c08
+    res = []
+    for name, body in (("b.f", w["fixed"]), ("b.f90", w["free"])):
+        head = ["      subroutine caller(obj, buf)", "      use procs", "      integer x, y, i"] if name == "b.f" else ["subroutine caller(obj, buf)", "use procs", "integer x, y, i"]
+        tail = ["      end subroutine caller"] if name == "b.f" else ["end subroutine caller"]
+        old = sf.namelist
+        sf.namelist = sf.NameSelector()
+        try:
+            p = parserh.project_concrete({"a.f90": list(c08.MODULE), name: head + list(body) + tail}, physical=(name,), **c08.PSET)
+            res.append(_ff_observe(p))
+        except Exception as e:  # noqa
+            res.append("raised " + repr(e)[:160])
+        finally:
+            sf.namelist = old
+    return res[0] != res[1], {"fixed-form lines": w["fixed"], "free-form lines": w["free"], "documented from the fixed form (calls, variables)": res[0],
+                              "documented from the free form": res[1]}
+
+
+@obligation("C14", "O5.fixed-and-free-form-documented-alike", engine="SX(CV)", timeout=600)
+def fixed_free_alike(ctx):
+    """a procedure body fragment (labelled FORMAT statements at several indentations, DO/IF constructs, computed GOTO) written in fixed
+    form and in free form, both read by the real converter / reader / parser: the same calls and variables are recorded"""
+    import ford.sourceform as sf
+    import ford.fixed2free2 as ff
+
+    ctx.encode_fn(ff.convertToFree)
+    ctx.encode_re("FORMAT_RE", sf.FortranContainer.FORMAT_RE)
+    ctx.bounds.update({"fragments": len(FF_PAIRS)})
+    ctx.stubs.append("one native run per fragment (the reader works on concrete text)")
+
+    def h(E):
+        i = CV.choice(E, "fragment", list(range(len(FF_PAIRS)))).concretize()
+        snap = {"fixed": FF_PAIRS[i][0], "free": FF_PAIRS[i][1]}
+        E.e.snapshot = lambda m: dict(snap)
+        with patch.suspended():
+            bad, detail = replay_fixed_free(snap)
+        E.reachable("documented")
+        E.require(not bad, "the fixed-form source is documented differently from its free-form transcription")
+
+    E = sym.Engine(ctx, max_paths=100, incremental=True)
+    found = E.explore(h)
+    seen = set()
+    for (label, m, pc), snap in zip(found, E.snapshots):
+        if not snap or str(snap["fixed"]) in seen:
+            continue
+        seen.add(str(snap["fixed"]))
+        ctx.report(label, snap, replay_fixed_free)
+    if E.reached.get("documented"):
+        ctx.twins += 1
+    else:
+        ctx.inconclusive.append("vacuity: nothing documented")
+    ctx.sample({"paths": E.paths})
